@@ -15,8 +15,8 @@ import (
 // lies outside the range of the *source* type the guard is dead and the limit is not enforced.
 func init() {
 	register(&Rule{
-		Name: "DEADCMP",
-		Doc: "an ordered or equality comparison between an integer widened from a narrower type T (uint8/16/32, int8/16/32) and a constant never uses a constant above T's maximum: a guard like `int(sp) >= 256` with sp uint8 can never be true, so the limit it is meant to enforce (stack depth, length bound) does not exist",
+		Name:     "DEADCMP",
+		Doc:      "an ordered or equality comparison between an integer widened from a narrower type T (uint8/16/32, int8/16/32) and a constant never uses a constant above T's maximum: a guard like `int(sp) >= 256` with sp uint8 can never be true, so the limit it is meant to enforce (stack depth, length bound) does not exist",
 		Configs:  "NP",
 		Floor:    map[string]int{"N": 5, "P": 5},
 		Controls: 1,
